@@ -266,7 +266,12 @@ func (idx *IVFPQIndex) Train(vectors []VectorNode) error {
 }
 
 // Trained returns true if the index has been trained
+//
+// Thread-safety: Acquires read lock (Train sets the flag under the write lock)
 func (idx *IVFPQIndex) Trained() bool {
+	idx.mu.RLock()
+	defer idx.mu.RUnlock()
+
 	return idx.trained
 }
 
